@@ -23,7 +23,7 @@ ENCODINGS = ["utf-8", "ascii", "latin-1", "cp1252"]
 SPELLINGS = ["LF", "CRLF", "CR", "mixed"]
 
 TIERS = {
-    "quick": {"ascii_other_enc": 1, "b_per_text": 2, "c_per_text": 1, "c_texts": 500, "child_pairs": 120,
+    "quick": {"ascii_other_enc": 1, "b_per_text": 6, "c_per_text": 2, "c_texts": 1500, "child_pairs": 150,
               "batch": 400, "min_seconds": 60},
     "thorough": {"ascii_other_enc": 3, "b_per_text": 30, "c_per_text": 8, "c_texts": 100000, "child_pairs": 1500,
                  "batch": 600, "min_seconds": 600},
